@@ -4,6 +4,7 @@ package c19
 import (
 	"encoding/json"
 	"fmt"
+	"sort"
 	"strings"
 	"testing"
 
@@ -149,6 +150,16 @@ func gen(t *rapid.T) Case {
 				if rapid.IntRange(0, 4).Draw(t, "hasParam") > 0 {
 					s.Params[nme] = rapid.SampledFrom([]string{"7", "x", "78", "a/b", "", "{x}", "{id}", "{y}7", "%s", "}{"}).Draw(t, "pval") // incl. values that look like tokens
 				}
+			}
+			if len(s.Params) >= 2 && rapid.IntRange(0, 2).Draw(t, "tokenValue") == 0 {
+				// the value of one parameter is the token of another one: substituted once, never again
+				var ks []string
+				for k := range s.Params {
+					ks = append(ks, k)
+				}
+				sort.Strings(ks)
+				two := rapid.Permutation(ks).Draw(t, "tokenKeys")
+				s.Params[two[0]] = "{" + two[1] + "}"
 			}
 			c.Steps = append(c.Steps, s)
 		default:
